@@ -34,7 +34,45 @@ fn canon<T: serde::Serialize>(x: &T) -> Option<Vec<u8>> {
     Json::canonicalize(&Json::serialize(x).ok()?).ok()
 }
 
+/// value-level codec: decode through the untagged wrapper and write again, on both sides
+fn att_dec_case<T: serde::de::DeserializeOwned + serde::Serialize + 'static>(sink: &mut Sink, kind: &str, doc: &Value, class: &str) {
+    let op = format!("att_dec {} {}", kind, proto(doc, &mut None));
+    let d = doc.clone();
+    let ans = match guarded(move || serde_json::from_value::<T>(d)) {
+        Err(()) => return,
+        Ok(Err(_)) => "reject".to_string(),
+        Ok(Ok(v)) => match serde_json::to_value(&v) {
+            Ok(j) => format!("ok {}", proto(&j, &mut None)),
+            Err(_) => return,
+        },
+    };
+    sink.stat(&format!("att_dec/{}/{}/{}", kind, class, ans.split(' ').next().unwrap()));
+    sink.op(&op, &ans, doc.is_object());
+}
+
+/// puts `stamp` into the first `buildStartedOn` / `buildFinishedOn` member found (or adds a metadata block)
+fn set_timestamp(v: &mut Value, stamp: &str) -> bool {
+    match v {
+        Value::Object(m) => {
+            for k in ["buildStartedOn", "buildFinishedOn"] {
+                if m.contains_key(k) {
+                    m.insert(k.to_string(), Value::String(stamp.to_string()));
+                    return true;
+                }
+            }
+            if m.contains_key("builder") && !m.contains_key("metadata") {
+                m.insert("metadata".into(), serde_json::json!({"buildFinishedOn": stamp}));
+                return true;
+            }
+            m.values_mut().any(|x| set_timestamp(x, stamp))
+        }
+        Value::Array(xs) => xs.iter_mut().any(|x| set_timestamp(x, stamp)),
+        _ => false,
+    }
+}
+
 fn predicate_case(sink: &mut Sink, model: &mut Model, doc: &Value, class: &str) {
+    att_dec_case::<PredicateWrapper>(sink, "predicate", doc, class);
     let replay = format!("pred {}", proto(doc, &mut None));
     let d = doc.clone();
     let parsed = guarded(move || serde_json::from_value::<PredicateWrapper>(d));
@@ -113,6 +151,7 @@ fn timestamps_preserved(sink: &mut Sink, before: &Value, after: &Value, replay: 
 }
 
 fn statement_case(sink: &mut Sink, model: &mut Model, doc: &Value, declared_vs_actual: Option<(usize, usize)>, class: &str) {
+    att_dec_case::<StatementWrapper>(sink, "statement", doc, class);
     let replay = format!("stmt {}", proto(doc, &mut None));
     let d = doc.clone();
     let parsed = guarded(move || serde_json::from_value::<StatementWrapper>(d));
@@ -258,6 +297,25 @@ pub fn run(cfg: &Cfg) {
         }
         if i % 5 == 0 {
             merge_case(&mut sink, &mut r);
+        }
+        // ---- value-level codec on mutated documents (any node: member deleted / renamed / added,
+        //      value of another shape, damaged string or number), and on timestamps in every notation
+        for (kind, doc) in [("predicate", &pred), ("statement", &naive), ("statement", &v01)] {
+            let m = crate::c16_doc::mutate(doc, &mut r);
+            if kind == "predicate" {
+                att_dec_case::<PredicateWrapper>(&mut sink, kind, &m, "mutated");
+            } else {
+                att_dec_case::<StatementWrapper>(&mut sink, kind, &m, "mutated");
+            }
+        }
+        let stamp = if r.chance(2, 3) { crate::timegen::gen_valid(&mut r) } else { crate::timegen::gen_invalid(&mut r) };
+        let mut with_time = if r.chance(1, 2) { pred.clone() } else { v01.clone() };
+        if set_timestamp(&mut with_time, &stamp) {
+            if with_time.get("predicateType").is_some() {
+                att_dec_case::<StatementWrapper>(&mut sink, "statement", &with_time, "timestamp");
+            } else {
+                att_dec_case::<PredicateWrapper>(&mut sink, "predicate", &with_time, "timestamp");
+            }
         }
     }
     sink.finish(&cfg.out, serde_json::json!({}));
